@@ -4,7 +4,7 @@
    Reading guide.  [S] is any unit schema (unit classes, units, SI prefixes) with [wf_schema S = true]
    (a boolean check, kernel-evaluated for every bundled schema in C11_bundled_wf); [cs] any list of its unit
    classes (the classes of a value-taking tag).  [n ++ 32 :: u] is "<n> <u>": [n] the number text (one word),
-   [u] the unit text -- ANY number of words since repair F3 --, and (v, w) its split at the LAST blank (the split
+   [u] the unit text -- ANY number of words since fix: 0669633 --, and (v, w) its split at the LAST blank (the split
    the code tries for a prefix-type unit before the number; v = n and w = u when u is one word).
    [spells S U M u]: u is the symbol of U exactly, or its name in singular or plural in any letter case,
    optionally preceded by a prefix M the unit permits.  [cands S cs v = []]: the text before the last blank is
@@ -12,8 +12,10 @@
    exception is computed in C11_ambiguity_extent).
    Switches of Model/Units.v, all [true] = the code as it now is:
      value_as_default_unit fixed f3 f4,  check_units_valid f3 f4
-     fixed: fix: commits f83491d, d18c9c6 (findings 10, 11);  f3: repair of C11-F3;  f4: repair of C11-F4.
-   Theorems named *_refuted are the RECORD of the repaired defects (switch = false).
+     fixed: fix: commits f83491d (C11-F1), d18c9c6 (C11-F2);  f3: fix: commit 0669633 (C11-F3);
+     f4: fix: commit 537f494 (C11-F4).  /repo contains all four; the harness runs the model with all true.
+   Theorems named *_refuted are the RECORD of the repaired defects (switch = false = behaviour before that fix:
+   commit); they say nothing about the implementation as it is.
    Values are exact rationals (IEEE rounding is not modelled). *)
 From Coq Require Import List NArith ZArith QArith Bool.
 From HV Require Import Base.Res Base.Str Model.Units Proofs.UnitsProofs Proofs.UnitsData Gen.UnitsAll.
@@ -160,9 +162,16 @@ Print Assumptions C11_single_words_unchanged.
 
 (* ----------------------------------------------------------------------- a whole string: the rule is per tag *)
 
-(* the unit issues of a string are the concatenation, over its unit-class tags in visiting order, of the
-   per-tag issues (validate_units_string is the loop of _validate_individual_tags_in_hed_string: an accumulator
-   of issues and no other state) -- every schema, every switch *)
+(* STATUS of the three theorems below: they hold BY THE SHAPE OF THE MODEL.  validate_units_string transcribes the
+   loop of _validate_individual_tags_in_hed_string as it stands -- an accumulator of issues and no other state --
+   so these are fold = flat_map facts; they state the rule the oracle enforces.  That the IMPLEMENTATION carries
+   no state between the tags of a string is TESTED ONLY (harness stream "multi": strings with two or three
+   unit-carrying tags, every tag must get the verdict of the statement and the verdict it gets alone).
+   C11_cache_sound_iff_key_respects_verdict / C11_cache_casefold_unsound below say which stateful loops would
+   keep the rule.
+
+   the unit issues of a string are the concatenation, over its unit-class tags in visiting order, of the
+   per-tag issues -- every schema, every switch *)
 Theorem C11_string_is_concat :
   forall (f3 f4 : bool) (S : uschema) (tags : list (utag * str)),
   validate_units_string f3 f4 S tags
@@ -187,6 +196,69 @@ Theorem C11_string_order_irrelevant :
   Permutation.Permutation (validate_units_string f3 f4 S tags) (validate_units_string f3 f4 S tags').
 Proof. exact string_permutation_lemma. Qed.
 Print Assumptions C11_string_order_irrelevant.
+
+(* NOT code of the implementation: the family of loops that remember clean tags under some [key] and skip a later
+   tag with a remembered key (memo_loop, Proofs/UnitsProofs.v).  Such a cache keeps the per-tag rule whenever equal
+   keys imply equal verdicts -- for ANY verdict function V ... *)
+Theorem C11_cache_sound_iff_key_respects_verdict :
+  forall (V : utag * str -> list code) (key : utag * str -> str),
+  (forall a b, key a = key b -> V a = V b) ->
+  forall (tags : list (utag * str)) (clean : list str),
+  (forall k, In k clean -> forall te, key te = k -> V te = []) ->
+  memo_loop V key clean tags = flat_map V tags.
+Proof. exact memo_sound_lemma. Qed.
+Print Assumptions C11_cache_sound_iff_key_respects_verdict.
+
+(* ... and a case-folded key does not respect the verdict: (Duration/3 ms), (Duration/3 MS) with HED 8.3.0 loses its
+   UNITS_INVALID under such a cache (the shape of seeded change C11/4), while the model of the code reports it *)
+Theorem C11_cache_casefold_unsound :
+  let V := fun te : utag * str => validate_units true true S83 (fst te) (snd te) in
+  let key := fun te : utag * str => casefold (snd te) in
+  let tags := [(T83, s_3 ++ 32 :: s_ms); (T83, s_3 ++ 32 :: [77; 83])] in
+  flat_map V tags = [UNITS_INVALID] /\ memo_loop V key [] tags = [] /\
+  validate_units_string true true S83 tags = [UNITS_INVALID].
+Proof. exact memo_casefold_unsound_lemma. Qed.
+Print Assumptions C11_cache_casefold_unsound.
+
+(* ----------------------------------------------------------------------- texts with more than one reading *)
+
+(* WITHOUT the single-reading hypothesis [unamb]: acceptance is still SOUND (C11_accepted_iff, direction ->, and
+   C11_other_text_invalid never used unamb), and a defined value is always the number times the factors of ONE
+   genuine reading (U, M) of the unit text -- which one is decided by the lookup order (exact key first, the last
+   unit of the class wins a shared key).  What is NOT claimed without unamb: that every spelled text is accepted. *)
+Theorem C11_value_is_a_reading :
+  forall (S : uschema) (cs : list classdef),
+  wf_schema S = true -> (forall C, In C cs -> In C (s_classes S)) ->
+  forall (fixed : bool) (n u v w : str) (q : Q),
+  no_space n -> n <> [] -> rpartition_space (n ++ 32 :: u) = (v, w) -> cands S cs v = [] ->
+  value_as_default_unit fixed true true S cs (n ++ 32 :: u) = Ok (Some q) ->
+  exists C U M x,
+    In C cs /\ In U (c_units C) /\ spells S U M u /\ u_prefix U = false /\
+    parse_float n = Some x /\ q = Qmult x (conv fixed U M).
+Proof. exact value_is_a_reading_lemma. Qed.
+Print Assumptions C11_value_is_a_reading.
+
+(* the only bundled text with two readings (C11_ambiguity_extent): "uV" in electricPotentialUnits of HED 8.3.0 and
+   score 2.0.0 = micro + symbol V, or the unit NAME uV.  What the code does: "3 uV" is accepted and converted
+   through the SYMBOL reading (3 * 0.000001 * 10e-6 = 3e-11, the factors as the schema writes them), not through the
+   name (3 * 1.0); "3 uv" / "3 UV" have only the name reading and give 3.  Same through score 2.0.0
+   Feature-amplitude. *)
+Example C11_ambiguous_uV :
+  spells S83 U83_V (Some m83_u) s_uV /\ spells S83 U83_uV None s_uV /\
+  In U83_V (c_units C83_epu) /\ In U83_uV (c_units C83_epu) /\ In C83_epu (s_classes S83) /\
+  unamb S83 [C83_epu] s_uV = false /\
+  check_units_valid true true S83 T_numeric [C83_epu] (s_3 ++ 32 :: s_uV) = [] /\
+  (exists q, value_as_default_unit true true true S83 [C83_epu] (s_3 ++ 32 :: s_uV) = Ok (Some q) /\
+             Qeq q (3 # 100000000000) /\
+             Qeq q (Qmult (Qmult (inject_Z 3) (pow10 0)) (conv true U83_V (Some m83_u))) /\
+             ~ Qeq q (Qmult (Qmult (inject_Z 3) (pow10 0)) (conv true U83_uV None))) /\
+  (exists q, value_as_default_unit true true true S83 [C83_epu] (s_3 ++ 32 :: s_uv) = Ok (Some q) /\ Qeq q 3) /\
+  (exists q, value_as_default_unit true true true S83 [C83_epu] (s_3 ++ 32 :: s_UV) = Ok (Some q) /\ Qeq q 3) /\
+  check_units_valid true true Ssc2 Tsc2 cssc2 (s_3 ++ 32 :: s_uV) = [] /\
+  (exists q, value_as_default_unit true true true Ssc2 cssc2 (s_3 ++ 32 :: s_uV) = Ok (Some q) /\
+             Qeq q (3 # 100000000000)).
+Proof. exact ambiguous_uV_lemma. Qed.
+Print Assumptions C11_ambiguous_uV.
 
 (* ======================================================================= kernel-evaluated data obligations *)
 
@@ -225,9 +297,10 @@ Example C11_nonvacuous_blank_name :
 Proof. exact nonvacuous_blank_lemma. Qed.
 Print Assumptions C11_nonvacuous_blank_name.
 
-(* ======================================================================= RECORD of the repaired defects *)
+(* ======================================================================= RECORD of the repaired defects
+   (all four repairs are in /repo: f83491d, d18c9c6, 537f494, 0669633; nothing below describes the current code) *)
 
-(* C11-F3 (f3 = false, with or without repair F4): C11_accepted_iff was FALSE -- "Temperature/3 degree Celsius"
+(* C11-F3, behaviour BEFORE fix: commit 0669633 (f3 = false, with or without 537f494): C11_accepted_iff was FALSE -- "Temperature/3 degree Celsius"
    with HED 8.1.0 meets its hypotheses, the unit text spells the unit, and the answer was UNITS_INVALID *)
 Theorem C11_accepted_refuted_blank_name :
   exists S cs n u v w (T : utag),
@@ -240,7 +313,8 @@ Theorem C11_accepted_refuted_blank_name :
 Proof. exact accepted_refuted_blank_name_lemma. Qed.
 Print Assumptions C11_accepted_refuted_blank_name.
 
-(* C11-F4 (f3 = f4 = false): C11_other_text_invalid and C11_unrecognised_absent were FALSE -- "Duration/3 m s"
+(* C11-F4, behaviour BEFORE fix: commits 537f494 and 0669633 (f3 = f4 = false): C11_other_text_invalid and
+   C11_unrecognised_absent were FALSE -- "Duration/3 m s"
    with HED 8.3.0 meets their hypotheses, drew no issue at all, and the conversion raised ValueError *)
 Theorem C11_other_text_refuted_extra_words :
   exists S cs n u v w (T : utag),
@@ -252,7 +326,7 @@ Theorem C11_other_text_refuted_extra_words :
 Proof. exact other_text_refuted_extra_words_lemma. Qed.
 Print Assumptions C11_other_text_refuted_extra_words.
 
-(* finding 10 (fixed = false, before fix: f83491d): C11_convert_defined was FALSE -- "Duration/3 Seconds" with
+(* C11-F1 / finding 10, behaviour BEFORE fix: commit f83491d (fixed = false): C11_convert_defined was FALSE -- "Duration/3 Seconds" with
    HED 8.3.0 meets its hypotheses, validated without any issue, and the conversion raised TypeError *)
 Theorem C11_convert_refuted_case :
   exists S cs n u v w C U M ft (T : utag),
@@ -267,7 +341,7 @@ Theorem C11_convert_refuted_case :
 Proof. exact convert_refuted_case_lemma. Qed.
 Print Assumptions C11_convert_refuted_case.
 
-(* finding 11 (fixed = false, before fix: d18c9c6): C11_convert_value was FALSE -- "Duration/3 Ms" with HED 8.2.0
+(* C11-F2 / finding 11, behaviour BEFORE fix: commit d18c9c6 (fixed = false): C11_convert_value was FALSE -- "Duration/3 Ms" with HED 8.2.0
    (mega declared 10^6) gave 3 * 10^7 where the declared factors give 3 * 10^6 *)
 Theorem C11_convert_refuted_mega :
   exists S cs n u v w x C U M ft fU fM q,
@@ -284,7 +358,7 @@ Theorem C11_convert_refuted_mega :
 Proof. exact convert_refuted_mega_lemma. Qed.
 Print Assumptions C11_convert_refuted_mega.
 
-(* ... and was TRUE before those fixes only when the text is the derived key itself (a symbol, or a name written
+(* ... and BEFORE fix: commits f83491d, d18c9c6 it was TRUE only when the text is the derived key itself (a symbol, or a name written
    in lower case) and neither factor text contains a caret *)
 Theorem C11_convert_value_partial :
   forall (S : uschema) (cs : list classdef),
